@@ -5,7 +5,7 @@
 (*   neg      p := -p        scale(c)  p := p.scale(c)        pow(n)  p := p ** n        rot   (p, q, r) := (q, r, p)                     *)
 (*   laws(c)  observation: both sides of every ring law on (p, q, r) and the scalar c                                               *)
 (* Init: (p, q, r) ranges over InitP x InitQ x InitR; with InitP = ALL polynomials of <= MaxMono monomials over the atoms x, y with     *)
-(* powers in {-1, 1/2, 1, 2} (0 = absent) and coefficients in CoefSet this is the universe of the statement.  TLC explores all histories  *)
+(* powers in {-1, 1, 2, 3} (0 = absent) and coefficients in CoefSet this is the universe of the statement.  TLC explores all histories  *)
 (* of <= MaxOps actions (results of more than MaxSize monomials or with a number beyond TLC's integers are cut) and, with Record,       *)
 (* prints every behaviour for replay in the real code.                                                                            *)
 (* Invariants (on the reference; the T specification applies the same clauses to what the code answers):                           *)
@@ -20,7 +20,8 @@ vars == <<p, q, r, ops, hist, done, prev, init0>>
 
 \* ------------------------------------------------------------------ the universe
 Half == <<1, 2>>   MinusOne == <<0 - 1, 1>>   Two == <<2, 1>>
-PowSet == { MinusOne, Half, ROne, Two }
+Three == <<3, 1>>
+PowSet == { MinusOne, ROne, Two, Three }
 MkMono(px, py) == { f \in { <<"x", px>>, <<"y", py>> } : f[2] # RZero }
 MonoU == { MkMono(px, py) : px \in PowSet \cup {RZero}, py \in PowSet \cup {RZero} }
 Coefs3 == { MinusOne, Half, Two }
@@ -30,17 +31,17 @@ Polys(k) == IF k = 0 THEN { {} }
             ELSE LET S == Polys(k - 1) IN S \cup UNION { { s \cup { <<m, c>> } : m \in MonoU \ Monos(s), c \in CoefSet } : s \in S }
 X == PAtom1("x", ROne)   Y == PAtom1("y", ROne)
 One == PConst(ROne)
-XInv == PAtom1("x", MinusOne)   SqrtX == PAtom1("x", Half)   SqrtY == PAtom1("y", Half)
+XInv == PAtom1("x", MinusOne)   XCube == PAtom1("x", Three)   YInv == PAtom1("y", MinusOne)
 XY == PMul(X, Y)
 Zero == {}
 UniverseP == Polys(MaxMono)
 \* named sets for the configurations
-QSmall == { PAdd(X, PConst(Half)), PAdd(XInv, PNeg(Y)), PAdd(SqrtX, PScale(XY, Two)) }
+QSmall == { PAdd(X, PConst(Half)), PAdd(XInv, PNeg(Y)), PAdd(XCube, PScale(XY, Two)) }
 RSmall == { PAdd(Y, PConst(MinusOne)) }
-QWide == { Zero, One, X, PAdd(X, PConst(Half)), PAdd(XInv, PNeg(Y)), PAdd(SqrtX, PScale(XY, Two)), PAdd(PMul(X, X), PAdd(Y, One)) }
-RWide == { PAdd(Y, PConst(MinusOne)), PAdd(SqrtY, XInv), Zero }
+QWide == { Zero, One, X, PAdd(X, PConst(Half)), PAdd(XInv, PNeg(Y)), PAdd(XCube, PScale(XY, Two)), PAdd(PMul(X, X), PAdd(Y, One)) }
+RWide == { PAdd(Y, PConst(MinusOne)), PAdd(YInv, XInv), Zero }
 ZeroOnly == { Zero }
-GensSmall == { X, Y, One, PConst(Half), XInv, SqrtX, PAdd(X, Y), PAdd(PScale(XY, Two), PConst(MinusOne)) }
+GensSmall == { X, Y, One, PConst(Half), XInv, XCube, PAdd(X, Y), PAdd(PScale(XY, Two), PConst(MinusOne)) }
 GensInt == { X, Y, One, PConst(Half), XInv, PAdd(X, Y), PAdd(PScale(XY, Two), PConst(MinusOne)) }
 ScalarsSmall == { RZero, MinusOne, Half, <<3, 1>> }
 ScalarsOne == { Half }
